@@ -9,6 +9,7 @@ import (
 	"time"
 
 	"github.com/jcmturner/gokrb5/v8/client"
+	"github.com/jcmturner/gokrb5/v8/credentials"
 	"github.com/jcmturner/gokrb5/v8/keytab"
 	"github.com/jcmturner/gokrb5/v8/types"
 
@@ -100,7 +101,7 @@ func run(tapeJSON json.RawMessage, res *core.Result) {
 	}
 	tktLife, renewLife := parseDur(tp.Conf.TicketLifetime, 24*time.Hour), parseDur(tp.Conf.RenewLifetime, 0)
 	if len(tp.Ops) < 1 || len(tp.Ops) > 60 || tp.Chain < 0 || tp.Chain > 8 || tktLife < 0 || renewLife < 0 ||
-		len(tp.Conf.TktEtypes) == 0 || len(tp.Conf.TGSEtypes) == 0 || (tp.Cred != "keytab" && tp.Cred != "password") {
+		len(tp.Conf.TktEtypes) == 0 || len(tp.Conf.TGSEtypes) == 0 || (tp.Cred != "keytab" && tp.Cred != "password" && tp.Cred != "ccache") {
 		res.Verdict, res.Harness = "invalid", "shape"
 		return
 	}
@@ -157,7 +158,7 @@ func run(tapeJSON json.RawMessage, res *core.Result) {
 		}
 	}
 	var up *refkdc.Principal
-	if tp.Cred == "keytab" {
+	if tp.Cred == "keytab" || tp.Cred == "ccache" {
 		up = sim.AddKeyUser("alice", 5)
 	} else {
 		up = sim.AddPasswordUser("alice", password, tp.Salt, tp.Iter)
@@ -184,6 +185,49 @@ func run(tapeJSON json.RawMessage, res *core.Result) {
 			return
 		}
 		cl = client.NewWithKeytab("alice", "SIM.TEST", kt, cfg, opts...)
+	} else if tp.Cred == "ccache" {
+		// a credential cache left behind by another program (kinit): a TGT and, in half of the runs,
+		// a service ticket, both issued by the reference KDC a moment ago; the file is written by
+		// the reference implementation and read by the real parser
+		var ccOpts uint32
+		if tp.Conf.Forwardable {
+			ccOpts |= rk.Bit(rk.FlagForwardable)
+		}
+		if tp.Conf.Proxiable {
+			ccOpts |= rk.Bit(rk.FlagProxiable)
+		}
+		cn := rk.ParseName("alice")
+		cn.Type = 1
+		var creds []rk.CCacheCred
+		names := []string{"krbtgt/SIM.TEST"}
+		if tp.RunSeed%2 == 0 {
+			names = append(names, "HTTP/host.sim.test")
+		}
+		for _, sn := range names {
+			is, e := sim.DirectAS("alice", sn, tktIDs, ccOpts, tktLife, renewLife, nil)
+			if e != nil {
+				res.Verdict, res.Harness = "harness-error", "credential cache: "+e.Error()
+				return
+			}
+			c := rk.CCacheCred{Client: cn, CRealm: "SIM.TEST", Server: rk.ParseName(sn), SRealm: "SIM.TEST", Key: is.SessionKey,
+				Auth: uint32(is.AuthTime.Unix()), Start: uint32(is.Start.Unix()), End: uint32(is.End.Unix()), Flags: is.Flags, Ticket: is.TicketRaw}
+			c.Server.Type = 2
+			if is.RenewTill != nil {
+				c.RT = uint32(is.RenewTill.Unix())
+			}
+			creds = append(creds, c)
+		}
+		cc := new(credentials.CCache)
+		if e := cc.Unmarshal(rk.WriteCCache(cn, "SIM.TEST", creds)); e != nil {
+			res.Verdict, res.Harness = "harness-error", "credential cache rejected by the parser: "+e.Error()
+			return
+		}
+		cl, err = client.NewFromCCache(cc, cfg, opts...)
+		if err != nil {
+			res.Verdict, res.Harness = "harness-error", "NewFromCCache: "+err.Error()
+			return
+		}
+		res.Probes["credential-cache-client"]++
 	} else {
 		cl = client.NewWithPassword("alice", "SIM.TEST", password, cfg, opts...)
 	}
@@ -521,6 +565,11 @@ func run(tapeJSON json.RawMessage, res *core.Result) {
 		}
 		switch r.Op {
 		case "login", "affirm":
+			if tp.Cred == "ccache" && !r.OK {
+				// a client made from a credential cache has nothing to log in with
+				res.Stats["ccache_login_refused"]++
+				continue
+			}
 			if !r.OK && !afterDestroy {
 				viol("healthy-kdc.failed|"+r.Op, r)
 			}
@@ -539,6 +588,17 @@ func run(tapeJSON json.RawMessage, res *core.Result) {
 		case "tgs", "cached":
 			if !r.OK {
 				open := afterDestroy || r.Op == "cached" || (far && (tp.Chain > 2 || tp.Cycle))
+				if tp.Cred == "ccache" {
+					// without credentials the TGT of the cache cannot be replaced: from the last sixth of
+					// its life on (where the library tries to refresh it) requests may fail
+					lastSixth := false // judged on the newest TGT issued before the call
+					for _, is := range issues {
+						if is.SName == "krbtgt/SIM.TEST" && is.Realm == "SIM.TEST" && at(is.At) <= r.Invoke {
+							lastSixth = r.Return >= at(is.At)+int64(is.End.Sub(is.At))*5/6
+						}
+					}
+					open = open || lastSixth
+				}
 				if !open {
 					why := "own-realm"
 					if far {
